@@ -79,23 +79,25 @@ type incomplete struct{}
 // regDriver replays one history against the interpreted registry methods.
 type regDriver struct {
 	absint.BaseOracle
-	c         *core.Ctx
-	T         *types.Named
-	recv      *absint.Tok
-	key       *absint.Tok
-	factoryP  *absint.Tok
-	st        regState
-	mon       regMon
-	ops       []regOp
-	pos       int
-	viol      map[string]string // violation class -> detail
-	keyBad    string
-	consulted int               // stored factory consulted during the current op
-	failing   bool              // between a failed creation callback and the return of the create method
-	pubCells  map[string]bool   // cells that received a published instance
-	failDel   map[string]string // cells deleted from while failing -> history
-	curEarly  bool              // earlyOK of the op being executed
-	trans     int
+	c            *core.Ctx
+	T            *types.Named
+	recv         *absint.Tok
+	key          *absint.Tok
+	factoryP     *absint.Tok
+	st           regState
+	mon          regMon
+	ops          []regOp
+	pos          int
+	viol         map[string]string // violation class -> detail
+	keyBad       string
+	constructing bool // while the constructor of the registry is interpreted
+	ncell        int
+	consulted    int               // stored factory consulted during the current op
+	failing      bool              // between a failed creation callback and the return of the create method
+	pubCells     map[string]bool   // cells that received a published instance
+	failDel      map[string]string // cells deleted from while failing -> history
+	curEarly     bool              // earlyOK of the op being executed
+	trans        int
 }
 
 func (d *regDriver) violate(class, detail string) {
@@ -106,10 +108,64 @@ func (d *regDriver) violate(class, detail string) {
 
 func (d *regDriver) cellOf(v absint.Value) (string, bool) {
 	t, ok := v.(*absint.Tok)
+	if ok && t.Class == "cell" {
+		return t.ID, true // a container made by the interpreted constructor
+	}
+	if ok {
+		// ... or allocated by it as a literal of one of the container types
+		if gt, has := t.Attr["gotype"].(types.Type); has {
+			if pt, isPtr := gt.Underlying().(*types.Pointer); isPtr {
+				gt = pt.Elem()
+			}
+			if n := core.NamedOf(gt); n != nil && n.Obj().Pkg() != nil {
+				if p := n.Obj().Pkg().Path(); p == core.Mod+"/util/sync2" || p == core.Mod+"/util/list" {
+					return t.ID, true
+				}
+			}
+		}
+	}
 	if !ok || !strings.HasPrefix(t.ID, d.recv.ID+".") {
 		return "", false
 	}
 	return strings.TrimPrefix(t.ID, d.recv.ID+"."), true
+}
+
+// construct interprets the registry's constructor (the parameterless in-scope function that allocates T), so that
+// state the constructor arranges - lookup tables over the caches, shared containers - is what the methods see.  The
+// containers it makes (util/sync2 maps, util/list sets) become cells.  If there is no such constructor, or it leaves
+// the model, the receiver stays a blank object whose fields are cells by name.
+func (d *regDriver) construct() {
+	var ctor *ssa.Function
+	for _, fn := range d.c.Scope {
+		if fn.Parent() != nil || len(fn.Params) != 0 || fn.Signature.Results().Len() != 1 || core.PkgOf(fn) == nil || core.PkgOf(fn).Pkg != d.T.Obj().Pkg() {
+			continue
+		}
+		for _, b := range fn.Blocks {
+			for _, in := range b.Instrs {
+				if al, ok := in.(*ssa.Alloc); ok && core.NamedOf(al.Type()) == d.T {
+					ctor = fn
+				}
+			}
+		}
+	}
+	if ctor == nil {
+		return
+	}
+	d.constructing = true
+	defer func() { d.constructing = false }()
+	ip := absint.New(d)
+	ip.IsLog, ip.InScope = core.IsLogCall, d.c.InScope
+	out := ip.Run(ctor, nil, nil)
+	if out.Undecided != nil || out.Panic != nil || len(out.Ret) != 1 {
+		d.ncell = 0
+		return
+	}
+	if obj, ok := out.Ret[0].(*absint.Tok); ok {
+		// keep the identity the rest of the driver knows, take over what the constructor built
+		for k, v := range obj.Fields {
+			d.recv.Fields[k] = v
+		}
+	}
 }
 
 func (d *regDriver) checkKey(v absint.Value, site ssa.CallInstruction) {
@@ -180,6 +236,13 @@ func (d *regDriver) Call(ip *absint.Interp, site ssa.CallInstruction, args []abs
 	if cal == nil {
 		return nil, false
 	}
+	if d.constructing && cal.Signature.Recv() == nil && cal.Pkg != nil {
+		// the constructor makes its containers: each is a cell
+		if p := cal.Pkg.Pkg.Path(); (p == core.Mod+"/util/sync2" || p == core.Mod+"/util/list") && cal.Signature.Results().Len() == 1 {
+			d.ncell++
+			return absint.NewTok(fmt.Sprintf("cell#%d", d.ncell), "cell"), true
+		}
+	}
 	if recv := cal.Signature.Recv(); recv != nil {
 		if n := core.NamedOf(recv.Type()); n != nil && n.Obj().Pkg() != nil && n.Obj().Pkg().Path() == core.Mod+"/util/list" && len(args) >= 2 {
 			// the in-creation set used through its concrete type instead of the list.Set interface
@@ -248,6 +311,9 @@ func (d *regDriver) Call(ip *absint.Interp, site ssa.CallInstruction, args []abs
 }
 
 func (d *regDriver) Field(ip *absint.Interp, obj *absint.Tok, name string, typ types.Type) absint.Value {
+	if obj != d.recv && strings.HasPrefix(obj.ID, d.recv.ID+".") && obj.Class == "field" {
+		return nil // a part of the registry's own state held in a nested struct: cells are named by their path
+	}
 	if obj != d.recv {
 		// the protocol is payload-agnostic: a registry that looks inside the definitions / factories it stores
 		// behaves differently for different components, which the per-name token model cannot see
@@ -434,6 +500,7 @@ func newRegDriver(c *core.Ctx, T *types.Named, ops []regOp) *regDriver {
 	d.recv = absint.NewTok("r", "recv")
 	d.key = absint.NewTok("name", "key")
 	d.factoryP = absint.NewTok("factory", "factoryParam")
+	d.construct()
 	return d
 }
 
